@@ -65,6 +65,11 @@ types = [
     record("ParamPart", [field("p", prim("string"), optional=True), field("q", prim("int32"), optional=True)]),
     {"complexKey": dict(named("CK"), Key={"name": "KeyPart", "namespace": "fam"}, Params={"name": "ParamPart", "namespace": "fam"})},
     record("Meta", [field("total", prim("int32")), field("note", prim("string"), optional=True)]),
+    # a namespace cycle with clashing type names that share their last namespace segment: exercises cycle
+    # detection (types move to the conflictResolution package) and clash renaming in the generator
+    record("Node", [field("label", prim("string")), field("peer", ref("Node", "fam.beta.model"), optional=True)], ns="fam.alpha.model"),
+    record("Node", [field("weight", prim("int32")), field("back", ref("Node", "fam.alpha.model"), optional=True)], ns="fam.beta.model"),
+    record("Holder", [field("a", ref("Node", "fam.alpha.model"), optional=True), field("b", ref("Node", "fam.beta.model"), optional=True), field("tag", prim("string"))]),
 ]
 
 def m(name, on_entity, return_entity=False, params=(), paging=False):
@@ -111,6 +116,11 @@ resources = [
         [m("get", True), m("create", False), m("update", True), m("delete", True), m("get_all", False, paging=True), m("batch_get", False),
          finder("byA", [field("a", prim("string"))], schema=ref("Inner")), action("poke", [field("x", prim("string"))], ret=prim("string"), on_entity=True)]),
     resource("fam.prims.one", [("prims", ("id", prim("int64"))), ("one", None)], ref("Inner"), [m("get", False), m("update", False), m("delete", False)]),
+    resource("fam.single.items", [("single", None), ("items", ("item", prim("int64")))], ref("Inner"),
+        [m("get", True), m("create", False), m("update", True), m("delete", True), m("get_all", False, paging=True), m("batch_get", False),
+         finder("byA", [field("a", prim("string"))], schema=ref("Inner")), action("poke", [field("x", prim("string"))], ret=prim("string"), on_entity=True),
+         action("sweep", [], ret=prim("int32"))]),
+    resource("fam.holders", [("holders", ("id", prim("string")))], ref("Holder"), [m("get", True), m("create", False), m("update", True), m("batch_get", False), m("get_all", False)]),
     resource("fam.annotated", [("annotated", ("id", prim("int64")))], ref("Annotated"),
         [m("get", True), m("create", False), m("batch_create", False), m("update", True), m("batch_update", False), m("partial_update", True), m("batch_partial_update", False)],
         ro=["id", "inner/b", "items/*/b"], co=["created", "attrs/*/a"]),
